@@ -1,3 +1,3 @@
 From Coq Require Import ExtrOcamlBasic ZArith.
-From RtoscV Require Import Ports.NameModel Ports.PathModel Ports.WalkModel Ports.NamesModel.
-Extraction "model.ml" Z.add Z.mul Z.opp collapse index_op apropos path_search path_search_msg get_port names_ok render_port.
+From RtoscV Require Import Ports.NameModel Ports.PathModel Ports.WalkModel Ports.NamesModel Ports.LookupSpec.
+Extraction "model.ml" Z.add Z.mul Z.opp collapse index_op apropos path_search path_search_msg get_port names_ok render_port names_shape enums_pos sibling_prefix_free key_prefix_free no_digit_facing.
